@@ -115,8 +115,16 @@ class MuxPeer(object):
         self.server_log.append({'time': now, 'conn': self.conn.id, 'discard': d['tag'], 'frame_tag': tag,
                                 'seq': len(self.server_log)})
         if self.script.get('ack_discards') and d['tag'] in self.outstanding:
-          # the server acknowledges the discard: an Rdiscarded frame (type -66) carrying the discarded request's tag
-          self.net.post('frame', self.conn, M.frame(-66, d['tag'], b''), {'tag': d['tag'], 'discard_ack': d['tag']})
+          # the server acknowledges the discard: an Rdiscarded frame (type -66) carrying the discarded request's tag.  A server
+          # that acknowledges has dropped the request: its reply, if still unsent, is never sent (the tag is free for the client
+          # to use again once the acknowledgement arrives).  If the reply is already (partly) on the wire there is no acknowledgement.
+          mine = [ev for ev in self.net.pending if ev.kind == 'frame' and ev.conn is self.conn and 'for' in (ev.meta or {})
+                  and (ev.meta or {}).get('tag') == d['tag']]
+          if mine and not any((ev.meta or {}).get('rest') for ev in mine):
+            for ev in mine:
+              self.net.pending.remove(ev)
+            self.outstanding.pop(d['tag'], None)
+            self.net.post('frame', self.conn, M.frame(-66, d['tag'], b''), {'tag': d['tag'], 'discard_ack': d['tag']})
       elif t == M.T_DISPATCH:
         rec = {'time': now, 'conn': self.conn.id, 'tag': tag, 'raw': fr, 'seq': len(self.server_log), 'addr': self.conn.addr,
                'dup_tag': tag in self.outstanding}
